@@ -454,6 +454,17 @@ M("C06", "M06-2-union-pruning-guard", dict(
   title="union top-K: the block-WAND union is only built on the `all scorers read frequencies` branch",
   functions=["boolean_weight::scorer_union"], bounds="")
 
+M("C13", "M13-1-fill_buffer-clears-drained-slots", dict(
+    root=r"^query::union::buffered_union::" + I + r"::fill_buffer$", depth=1, unroll=2, inline=[], auto_inline=False,
+    native=[("api_ok", "union_score_after_fill_buffer")], absent_ok_events=["clear"],
+    events={"pop": {"call": r"TinySet::pop_lowest$"},
+            "clear": {"call": r"ScoreCombiner>::clear$"},
+            "refill": {"call": r"BufferedUnionScorer::<.*>::refill$"},
+            "ret": {"ret": True}},
+    checks=[("requires_between", "pop", "clear", "refill"), ("requires_between", "pop", "clear", "ret"), ("reach", "refill")]),
+  title="BufferedUnionScorer::fill_buffer: a document taken out of the window (pop_lowest = Some) has its score slot cleared before the window is refilled or the call returns - otherwise the slot's old contribution is added to the document that reuses the slot after the refill (score depends on how the document was reached); advance_buffered does clear",
+  functions=["BufferedUnionScorer::fill_buffer"], bounds="unroll 2")
+
 M("C02", "M02-4-uncommitted-merge-target", dict(
     root=SU + r"consider_merge_options$", depth=1, unroll=2, inline=[], auto_inline=False,
     events={"stamp": {"call": r"Stamper::stamp$"},
